@@ -477,6 +477,19 @@ func TestC20(t *testing.T) {
 	for _, l := range lims {
 		switchAt[l.family+"/"+l.shape] = find(l.family, l.shape, l.lo, l.hi)
 	}
+	// the limits are constants of the interpreter, not state of the process: after a run in
+	// fuzzing mode (as the repository's own fuzz targets make) the stated magnitudes still work
+	for _, mode := range []bool{true, false} {
+		run.InProc("BEGIN { a[10] = 1 ; while (x < 5) { x++ } }", nil, nil, run.Opts{Budget: 1_000_000, Fuzzing: mode})
+		for _, c := range []*C20Case{{"index", "write-fresh", "999999"}, {"index", "write-existing", "100000"}, {"recursion", "direct", "1000"}, {"width", "s", "65536"}} {
+			got := inproc(c)
+			rec.Case(fmt.Sprintf("after-fuzzing-run %v %s/%s/%s", mode, c.Family, c.Shape, c.N), true, "in-process", "after-a-fuzzing-mode-run")
+			if got != "ok" {
+				p, _, _ := c20Program(c)
+				rec.Violation("boundary", c, p, fmt.Sprintf("%s/%s n=%s gives %s in a process that made a fuzzing-mode run before (fuzzing=%v); the statement says it works", c.Family, c.Shape, c.N, got, mode))
+			}
+		}
+	}
 	check(rec, "near-limit-random", scale(300, 60000), func(rt *rapid.T) {
 		l := lims[rapid.IntRange(0, len(lims)-1).Draw(rt, "limit")]
 		s := switchAt[l.family+"/"+l.shape]
